@@ -38,4 +38,7 @@ var (
 	VipPushHasBeenApproved func(transactionID string) (bool, error)
 
 	SSHAgentDial func() (net.Conn, error)
+
+	// observing hook (the function goes on): every certificate event handed to the notifier
+	EventPublishCert func(certType string, certData []byte)
 )
